@@ -166,6 +166,12 @@ def run(cfg, V):
         lst = [sp]
         i3 = db.AddCategory("c16_c", qt, valid_units=lst)
         o["addcat"] = (i1.default_unit, list(i1.valid_units), i2.default_unit, list(i2.valid_units), i3.default_unit, list(i3.valid_units), [u] + other, base)
+        # history: objects in the legacy and in the current spelling exist, then their category is REDEFINED with limits; new objects follow the new definition alike
+        db.AddCategory("c16_h", qt, default_unit=base)
+        Scalar(x, sp, "c16_h"), Scalar(x, u, "c16_h"), Array([x], sp, "c16_h"), ObtainQuantity(sp, "c16_h")
+        db.AddCategory("c16_h", qt, override=True, default_unit=base, min_value=1e30, default_value=1e30)
+        h1, h2 = Scalar(x, sp, "c16_h"), Scalar(x, u, "c16_h")
+        o["after_redefinition"] = (h1.IsValid(), h2.IsValid(), Array([x], sp, "c16_h").IsValid(), h1 == h2, ObtainQuantity(sp, "c16_h").GetCategoryInfo() is db.GetCategoryInfo("c16_h"))
         # the value-less form in a legacy-spelled unit, for a category whose default value is NOT zero
         db.AddCategory("c16_d", qt, default_unit=base, default_value=x)
         sd1, sd2 = Scalar("c16_d", unit=sp), Scalar("c16_d", unit=u)
@@ -229,6 +235,8 @@ def props(cfg, T, obs):
         ("AddCategory stores current spellings (default and valid units)", d1 == u and v1 == want_valid and v2 == want_valid and v3 == [u]
          and d2 == (base_u if base_u in want_valid else u) and d3 == u),
         ("a category registered with legacy spellings is usable", bool(obs["addcat_use"])),
+        ("after the category is redefined, objects built with the legacy spelling follow the NEW definition exactly like the current spelling",
+         obs["after_redefinition"][0] == obs["after_redefinition"][1] == obs["after_redefinition"][2] and bool(obs["after_redefinition"][3]) and bool(obs["after_redefinition"][4])),
         ("Scalar(category, unit=legacy) without a value carries the category default like the current spelling", z3.And(z3.BoolVal(bool(obs["default_in_legacy"][0])),
                                                                                                                    approx(obs["default_in_legacy"][1], from_base), approx(obs["default_in_legacy"][2], from_base))),
     ]
